@@ -870,6 +870,44 @@ fn time_precedence_cases(run: &mut Run, rng: &mut Rng, n: usize) {
     }
 }
 
+/// A `metadata_validator` that changes the options for ONE key (the documented use) must leave every other entry as it is
+/// without a validator: same warnings, same stored values, same accessor results.
+fn validator_isolation_cases(run: &mut Run, rng: &mut Rng, n: usize) {
+    use cooklang::analysis::{CheckOptions, CheckResult, ParseOptions};
+    const ENTRIES: &[&str] = &["servings: a few", "servings: 2|4", "time: quick", "time: 1h", "locale: english", "locale: en_GB", "tags: [a, b]", "tags: {x: 1}", "author: Ann <http://a.b>", "author: [1]", "prep time: 10 min", "cook time: soon", "title: T"];
+    for i in 0..n {
+        let conv = &run.convs[i % run.convs.len()];
+        let special = *rng.pick(&["x-special: 1", "x-special: [a]", "image: raw"]);
+        let skey = special.split(':').next().unwrap().to_string();
+        let k = 1 + rng.below(4);
+        let mut lines: Vec<String> = (0..k).map(|_| rng.pick(ENTRIES).to_string()).collect();
+        // no duplicate keys (a YAML error otherwise)
+        let mut seen = std::collections::HashSet::new(); lines.retain(|l| seen.insert(l.split(':').next().unwrap().to_string()));
+        let pos = rng.below(lines.len() + 1);
+        lines.insert(pos, special.to_string());
+        let text = format!("---\n{}\n---\nstep\n", lines.join("\n"));
+        let mode = rng.below(3);
+        let input = format!("recipe {text:?} with a validator that for key {skey:?} only calls {} ({} converter)", ["run_std_checks(false)", "include(false)", "both"][mode], conv.name);
+        let r = guarded(|| {
+            let sk = skey.clone();
+            let opts = ParseOptions { recipe_ref_check: None, metadata_validator: Some(Box::new(move |k: &Value, _v: &Value, o: &mut CheckOptions| { if k.as_str() == Some(sk.as_str()) { if mode != 1 { o.run_std_checks(false); } if mode != 0 { o.include(false); } } CheckResult::Ok })) };
+            let with = conv.parser.parse_with_options(&text, opts);
+            let plain = conv.parser.parse(&text);
+            let img = |res: &cooklang::RecipeResult| -> (Vec<String>, Vec<String>) {
+                let w: Vec<String> = res.report().iter().map(|d| d.message.to_string()).collect();
+                let m: Vec<String> = res.output().map(|r| r.metadata.map.iter().filter(|(k, _)| k.as_str() != Some(skey.as_str())).map(|(k, v)| format!("{k:?}={v:?}")).collect()).unwrap_or_default();
+                (w, m)
+            };
+            (img(&with), img(&plain))
+        });
+        let (with, plain) = match r { Ok(x) => x, Err(p) => { run.panic(&input, p); continue; } };
+        run.ctx.eval("", true);
+        run.ctx.count("validator-isolation");
+        // the special key itself is not a standard key (or, for `image`, has no check): nothing about it may differ either way
+        if with != plain { run.ctx.oracle_fail(input, format!("other entries are treated differently:\n with validator: {with:?}\n without: {plain:?}"), "c13:validator-isolation".into()); }
+    }
+}
+
 /// malformed stream: random texts and mutated well-formed ones through every accessor (correspondence + coupling)
 fn soup(run: &mut Run, rng: &mut Rng, n: usize) {
     let alphabet: Vec<char> = "0123456789.hm dsecinuty+-eEfaN_<>:/|,\t \u{a0}\u{2003}é日x".chars().collect();
@@ -969,5 +1007,6 @@ hour-based ratios, one without a minute), plus a malformed stream of random and 
     nameurl_cases(&mut run, &mut rng.fork(4), 1500 * k);
     locale_cases(&mut run, &mut rng.fork(5), 600 * k);
     time_precedence_cases(&mut run, &mut rng.fork(7), 1500 * k);
+    validator_isolation_cases(&mut run, &mut rng.fork(8), 300 * k);
     soup(&mut run, &mut rng.fork(6), 2500 * k);
 }
